@@ -26,6 +26,16 @@ Definition numeric_less (a b : value) : bool :=
   | _, _ => false
   end.
 
+(* the same for <= (a NaN is at most nothing and nothing is at most a NaN) *)
+Definition numeric_le (a b : value) : bool :=
+  match a, b with
+  | VInt x, VInt y => (x <=? y)%Z
+  | VInt x, VFloat y => PrimFloat.leb (float_of_Z x) y
+  | VFloat x, VInt y => PrimFloat.leb x (float_of_Z y)
+  | VFloat x, VFloat y => PrimFloat.leb x y
+  | _, _ => false
+  end.
+
 (* unicode.IsSpace *)
 Definition is_space (c : N) : bool :=
   is_space_ascii c || (c =? 133) || (c =? 160) || (c =? 5760) ||
@@ -159,7 +169,7 @@ Definition call_builtin (name : str) (args : list value) : option bres :=
     match args with
     | [v; lo; hi] =>
         if is_number v && is_number lo && is_number hi
-        then BVal (VBool (negb (numeric_less v lo || numeric_less hi v)))
+        then BVal (VBool (numeric_le lo v && numeric_le v hi))
         else BVal VNull
     | _ => BVal VNull
     end
